@@ -118,7 +118,7 @@ def run(ctx):
         t0 = time.time()
         # all bodies after "bytes=", plus all validator combinations
         paths = W.mc_states(ctx, "webstatic", "StaticRange", "MC_StaticRange.cfg",
-                            overrides=ctx.pick({"Sizes": {0, 1, 5, 12}, "BodyToks": set(body_q), "BodyLen": 3, "CondRanges": {"r1to4", "bad"}},
+                            overrides=ctx.pick({"Sizes": {0, 5, 12}, "BodyToks": set(body_q), "BodyLen": 3, "CondRanges": {"r1to4", "bad"}},
                                                {"Sizes": set(range(0, 13)), "BodyToks": set(body_t), "BodyLen": 3,
                                                 "CondRanges": {"r1to4", "bad", "from0", "suffix1", "beyond"}}),
                             required_actions=["request"])
@@ -131,7 +131,7 @@ def run(ctx):
         ctx.replay(paths2, replayer, nontrivial=nt)
         ctx.cov["exhaustive"] = True
         # request sequences on one file (history dependence: etag cache, keep-alive state)
-        sims = ctx.sim_paths("webstatic", "Gen_StaticRange", "Gen_StaticRange.cfg", num=ctx.pick(100, 400), depth=7)
+        sims = ctx.sim_paths("webstatic", "Gen_StaticRange", "Gen_StaticRange.cfg", num=ctx.pick(40, 400), depth=7, timeout=ctx.pick(900, 1500))
         ctx.replay(sims, replayer, label="s2c-sim")
         ctx._phase("mc+s2c", t0)
         t0 = time.time()
@@ -140,7 +140,7 @@ def run(ctx):
         n = ctx.pick(750, 12000)
         jobs = [(i + 1, ctx.seed * 1000003 + i, 8) for i in range(n)]
         traces = framework.pool_map(random_trace, jobs)
-        ctx.validate("webstatic", "Trace_StaticRange", "Trace_StaticRange.cfg", traces, shards=ctx.pick(2, None), sig_fn=_trace_sig)
+        ctx.validate("webstatic", "Trace_StaticRange", "Trace_StaticRange.cfg", traces, shards=ctx.pick(2, None), sig_fn=_trace_sig, timeout=ctx.pick(900, 1500))
         ctx._phase("c2s", t0)
         ctx.cov["rule"] = ("requests: every Range value 'bytes=' + <= 3 tokens over the body alphabet x sizes x GET/HEAD; unit/whitespace "
                            "prefix variants; all If-None-Match x If-Modified-Since classes x a menu of ranges; TLC simulation walks of 6 "
